@@ -8,8 +8,9 @@ def N(n):
     return '%d' % n
 
 THEOREMS = ['C13_feed_eq_parse', 'C13_fork_separation', 'C13_fork_result_eq_parse', 'C13_trial_feed_pure',
-            'C13_accepts_exact', 'C13_accepts_exact_table', 'C13_resume_eq_parse_rest',
-            'C13_default_copies_are_deep', 'C13_shallow_fork_aliasing_refuted', 'C13_example_deep']
+            'C13_accepts_exact', 'C13_accepts_exact_table', 'C13_resume_eq_parse_rest', 'C13_resume_on_fork',
+            'C13_default_copies_are_deep', 'C13_shallow_fork_aliasing_refuted', 'C13_shared_meta_refuted',
+            'C13_resume_shared_lexer_refuted', 'C13_example_deep']
 GEN_DEPS = ['InterHoles']
 RULE = ('random LALR grammars over 8 terminals (each token carries a unique number in its text) with `_`-inlined '
         'left/right-recursive rules (ChildFilterLALR in-place path), `?`-rules, `!`-rules, aliases, [x] placeholders, '
@@ -25,9 +26,12 @@ TRUSTED_BASE = ['export of lark\'s parse table and of the callback chain shape (
                 'ExpandSingleChild / Tree name) read from the live parser objects; unknown wrapper classes are rejected',
                 'control skeleton of ParserState.copy, InteractiveParser.copy/as_immutable/accepts, '
                 'ImmutableInteractiveParser.feed_token/as_mutable pinned by translator templates; copy defaults regenerated',
-                'PropagatePositions / Meta is not modelled in Coq: positions are compared by the Python oracle only']
-ASSUMPTIONS = ['copy.deepcopy(value_stack) yields a fresh, disjoint, isomorphic copy of everything reachable (Inter.Heap.deepcopy; '
-               'proved to have this specification on sharing-free stacks, observed on every run by an object-identity check)',
+                'PropagatePositions is Pos.MetaSpan.propagate (C06 model) written into the Meta cell of the result; its '
+                'source is pinned by the C06 translator, not by this one; token positions enter as a table id -> positions '
+                'exported from the Token objects; the lexer is a position in the exported token list (the lexer itself is C07)']
+ASSUMPTIONS = ['copy.deepcopy(value_stack) yields a fresh, disjoint, isomorphic copy of everything reachable - child lists and '
+               'Meta objects (Inter.Heap.deepcopy; proved to have this specification on sharing-free stacks, observed on '
+               'every run by an object-identity check); copy(lexer_thread) yields a new thread at the same position',
                'no transformer / lexer callbacks: callbacks[rule] is the chain built by ParseTreeBuilder, tokens are pushed as they are',
                'an inlined `_rule` value is always a Tree (the grammar syntax does not allow ?_rule)']
 
@@ -114,6 +118,10 @@ def build(g, pp, mp, lexer):
     return Lark(g, parser='lalr', lexer=lexer, propagate_positions=pp, maybe_placeholders=mp)
 
 
+def self_pp_ok(p):
+    return p.options.propagate_positions is True
+
+
 class Export:
     """lark's parse table and callback shapes as numbers (what the Coq model runs)"""
 
@@ -162,8 +170,8 @@ class Export:
             seen_filter = False
             while True:
                 if isinstance(f, ptb.PropagatePositions):
-                    if f.node_filter is not None:
-                        raise ValueError('propagate_positions filter not modelled')
+                    if f.node_filter is not None or not self_pp_ok(p) or seen_filter or e1:
+                        raise ValueError('PropagatePositions in an unmodelled place')
                     f = f.node_builder
                 elif type(f) is ptb.ChildFilterLALR:
                     if seen_filter or e1:
@@ -194,6 +202,7 @@ class Export:
             if e1:
                 self.expand1_rules.add(ridx[r])
         self.rule_info = [(self.nts[r.origin.name], len(r.expansion)) for r in self.rules]
+        self.pp = bool(p.options.propagate_positions)
         self.action = {s: dict(a) for s, a in self.acts}
         self.goto = {s: dict(g) for s, g in self.gotos}
         self.tname = {v: k for k, v in self.term.items()}
@@ -264,6 +273,24 @@ def tok_id(t):
     return int(str(t)[1:]) if len(str(t)) > 1 else 0
 
 
+def coq_trip(a, b, c):
+    return '(mk_trip %d %d %d)' % (a, b, c)
+
+
+def coq_meta(m):
+    def grp(names):
+        if m is not None and hasattr(m, names[1]):
+            return '(Some %s)' % coq_trip(*[getattr(m, n) for n in names])
+        return 'None'
+    return '(mk_meta %s %s %s %s)' % (grp(('start_pos', 'line', 'column')), grp(('end_pos', 'end_line', 'end_column')),
+                                     grp(('container_start_pos', 'container_line', 'container_column')),
+                                     grp(('container_end_pos', 'container_end_line', 'container_end_column')))
+
+
+def coq_tp(t):
+    return '(mk_tp %d %s %s)' % (tok_id(t), coq_trip(t.start_pos, t.line, t.column), coq_trip(t.end_pos, t.end_line, t.end_column))
+
+
 def to_ptree(ex, v):
     from lark import Tree, Token
     if v is None:
@@ -271,8 +298,16 @@ def to_ptree(ex, v):
     if isinstance(v, Token):
         return '(PTok %d %d)' % (ex.term[v.type], tok_id(v))
     if isinstance(v, Tree):
-        return '(PNode %d %s)' % (ex.data[str(v.data)], L([to_ptree(ex, c) for c in v.children]))
+        return '(PNode %d %s %s)' % (ex.data[str(v.data)], coq_meta(v._meta), L([to_ptree(ex, c) for c in v.children]))
     raise ValueError('unexpected value on the value stack: %r' % (v,))
+
+
+def lexer_count(thread, text_tokens):
+    """how many tokens of the text a LexerThread has yielded"""
+    if thread is None or thread.state is None or text_tokens is None:
+        return 0
+    pos = thread.state.line_ctr.char_pos
+    return len([t for t in text_tokens if t.end_pos <= pos])
 
 
 def dump(v, meta_mode):
@@ -423,6 +458,7 @@ class TreeRun:
         self.bits = set()
         self.text = text              # lexer-driven runs: the text every fork's lexer reads
         self.text_tokens = list(p.lex(text)) if text is not None else None
+        self.tokpos = {tok_id(t): t for t in (self.text_tokens or [])}   # token identity -> Token (positions)
         ip = p.parse_interactive(text) if text is not None else p.parse_interactive()
         self.forks.append(Fork(ip, False, [], text or '', 0))
 
@@ -510,7 +546,12 @@ class TreeRun:
             new_text, tok = mk_token(f.text, ty, ident, sep)
             self.script.append(['feed', i, ty, ident, sep])
         tnum = self.ex.term[ty]
-        self.ops.append('(OFeed %d %d %d)' % (i, tnum, 0 if is_end else ident))
+        if from_lexer:
+            self.ops.append('(OStep %d)' % i)
+        else:
+            self.ops.append('(OFeed %d %d %d)' % (i, tnum, 0 if is_end else ident))
+        if tok is not None:
+            self.tokpos[ident] = tok
         kind, res, new_py, err_state = None, None, None, None
         try:
             r = f.py.feed_eof(f.last) if is_end else f.py.feed_token(tok)
@@ -641,7 +682,7 @@ class TreeRun:
         before = self._snap()
         self.script.append(['resume', i])
         rest = self.text_tokens[f.lexpos:]
-        self.ops.append('(OResume %d %s)' % (i, L(['(%d, %d)' % (self.ex.term[t.type], tok_id(t)) for t in rest])))
+        self.ops.append('(OResume %d)' % i)
         try:
             res = f.py.resume_parse()
             kind = KRESULT
@@ -836,15 +877,23 @@ class TreeRun:
             if f.state is None:
                 out.append('None')
             else:
-                out.append('(mk_final %s %s)' % (L([N(x) for x in reversed(f.state.state_stack)]),
-                                               L([to_ptree(self.ex, v) for v in f.state.value_stack])))
+                lt = f.py.lexer_thread if f.py is not None else f.state.lexer
+                lx = '(Some (%d, %d))' % (lexer_count(lt, self.text_tokens), lexer_count(f.state.lexer, self.text_tokens))
+                out.append('(mk_final %s %s %s)' % (L([N(x) for x in reversed(f.state.state_stack)]),
+                                                  L([to_ptree(self.ex, v) for v in f.state.value_stack]), lx))
         return L(out)
 
+    def coq_rest(self):
+        tps = L([coq_tp(t) for _, t in sorted(self.tokpos.items())])
+        inp = L(['(%d, %d)' % (self.ex.term[t.type], tok_id(t)) for t in (self.text_tokens or [])])
+        return '%s %s %s %s %s' % (tps, inp, L(self.ops), L(self.obs), self.finals())
+
     def coq_case(self, shared=False):
+        pp = 'true' if self.ex.pp else 'false'
         if shared:
-            return '(mk_icase ta tg tr %d %d tc %s %s %s)' % (self.ex.s0, self.ex.e0, L(self.ops), L(self.obs), self.finals())
+            return '(mk_icase ta tg tr %d %d tc %s %s)' % (self.ex.s0, self.ex.e0, pp, self.coq_rest())
         acts, gotos, rules, s0, e0, cbs = self.ex.coq_tables()
-        return '(mk_icase %s %s %s %d %d %s %s %s %s)' % (acts, gotos, rules, s0, e0, cbs, L(self.ops), L(self.obs), self.finals())
+        return '(mk_icase %s %s %s %d %d %s %s %s)' % (acts, gotos, rules, s0, e0, cbs, pp, self.coq_rest())
 
     def nontrivial(self):
         return {'fork', 'distinct', 'result'} <= self.bits and bool(self.bits & {'inplace', 'expand1'})
@@ -962,27 +1011,33 @@ class OnErrorRun:
         pos = 0
         n_err = 0
         for (ty, sp, ss) in errs:
-            rest = toks[pos:]
-            self.ops.append('(OResume 0 %s)' % L(['(%d, %d)' % (ex.term[t.type], tok_id(t)) for t in rest]))
+            self.ops.append('(OResume 0)')
             self.obs.append('(EFed 0 %d %s)' % (KERROR, L([N(x) for x in reversed(ss)])))
             pos = len(toks) if ty == '$END' else idx[sp] + 1
             n_err += 1
-        rest = toks[pos:]
-        self.ops.append('(OResume 0 %s)' % L(['(%d, %d)' % (ex.term[t.type], tok_id(t)) for t in rest]))
+        self.ops.append('(OResume 0)')
         st = holder.get('state', ip.parser_state)
         self.obs.append('(EFed 0 %d %s)' % (KERROR if final_exc is not None else KRESULT,
                                            L([N(x) for x in reversed(st.state_stack)])))
-        self.final = '(mk_final %s %s)' % (L([N(x) for x in reversed(st.state_stack)]),
-                                          L([to_ptree(ex, v) for v in st.value_stack]))
+        lx = 'None'
+        if 'state' in holder:
+            n = lexer_count(st.lexer, toks)
+            lx = '(Some (%d, %d))' % (n, n)
+        self.final = '(mk_final %s %s %s)' % (L([N(x) for x in reversed(st.state_stack)]),
+                                             L([to_ptree(ex, v) for v in st.value_stack]), lx)
+        self.rest = '%s %s %s %s %s' % (L([coq_tp(t) for t in toks]),
+                                        L(['(%d, %d)' % (ex.term[t.type], tok_id(t)) for t in toks]),
+                                        L(self.ops), L(self.obs), L([self.final]))
         self.ex = ex
         self.n_err = n_err
         self.ok = final_exc is None
 
     def coq_case(self, shared=False):
+        pp = 'true' if self.ex.pp else 'false'
         if shared:
-            return '(mk_icase ta tg tr %d %d tc %s %s %s)' % (self.ex.s0, self.ex.e0, L(self.ops), L(self.obs), L([self.final]))
+            return '(mk_icase ta tg tr %d %d tc %s %s)' % (self.ex.s0, self.ex.e0, pp, self.rest)
         acts, gotos, rules, s0, e0, cbs = self.ex.coq_tables()
-        return '(mk_icase %s %s %s %d %d %s %s %s %s)' % (acts, gotos, rules, s0, e0, cbs, L(self.ops), L(self.obs), L([self.final]))
+        return '(mk_icase %s %s %s %d %d %s %s %s)' % (acts, gotos, rules, s0, e0, cbs, pp, self.rest)
 
 
 def coq_group(ex, runs):
@@ -993,6 +1048,19 @@ def coq_group(ex, runs):
 
 
 # ----------------------------------------------------------------------------------------- driver
+# grammars that always take part (propagate_positions on): inlined ?rules that return an existing child tree
+# with filtered tokens around it (the Meta of that tree is written in place), empty trees, nesting
+SPECIAL_GRAMMARS = [
+    'start: x\n?x: e _S | e _S _T\ne:\n',
+    'start: x\n?x: _L y _R | _L y _R _S\ny: A\n',
+    'start: x C\n?x: e _S | _L x _R\ne: | A\n',
+    'start: x\n?x: _S e | _S e _T\ne:\n',
+    'start: _l\n_l: _l x | x\n?x: _S e | _L x _R | A\ne: | B\n',
+    'start: _l\n_l: _l x | x\n?x: A | _L y _R | _L y _R _T\ny: [B] C | e _S\ne:\n',
+    'start: _l _T?\n_l: _l _S x | x\n?x: y | _L x _R\ny: A | B y\n',
+]
+
+
 def new_parser(rng, force_basic=False):
     from lark.exceptions import GrammarError
     for _ in range(50):
@@ -1099,13 +1167,18 @@ def correspond(ctx):
             ctx.violation('regression:' + name, w, True, what)
     defect = False
     lexer_shared = False
-    ngram = ctx.scale(36, 300) * (3 if ctx.widen else 1)
+    ngram = ctx.scale(70, 400) * (3 if ctx.widen else 1)
     groups = []      # (g, pp, mp, lexer, ex, [(kind, run)])
     mm = 2
 
     for gi in range(ngram):
         allow_bad = rng.random() < 0.4
-        g, pp, mp, lexer, p, ex = new_parser(rng, force_basic=allow_bad)
+        if gi < len(SPECIAL_GRAMMARS):
+            g, pp, mp, lexer = SPECIAL_GRAMMARS[gi] + TERM_DEFS, True, True, 'basic'
+            p = build(g, pp, mp, lexer)
+            ex = Export(p)
+        else:
+            g, pp, mp, lexer, p, ex = new_parser(rng, force_basic=allow_bad)
         runs = []
         for _ in range(3):
             tr = TreeRun(rng, p, ex, lexer, allow_bad, mm)
